@@ -93,6 +93,8 @@ def run(seed_id, checks):
     finally:
         sh(["git", "-C", REPO, "checkout", "--", "."])
         shutil.rmtree(os.path.join(VERIF, "replay"), ignore_errors=True)
+        # evidence written while /repo was patched is not evidence about /repo: restore the committed files
+        sh(["git", "-C", VERIF, "checkout", "--"] + [f"evidence/{c}.json" for c in checks])
     meta.setdefault("check_results", {}).update(results)
     meta["caught_by"] = sorted(c for c, r in meta["check_results"].items() if r["exit"] != 0)
     json.dump(meta, open(os.path.join(d, "meta.json"), "w"), indent=1)
